@@ -384,7 +384,48 @@ var c19Targets = []struct {
 }
 
 // c19Render checks that the strings All() returns are exactly what is rendered, in order, at every target.
+// c19RenderAfterRaw: the list rendered on the declaration that follows a raw string literal whose lines
+// end in back-slashes is laid out exactly as behind a one-line literal (back-slashes mean nothing in a
+// raw string: every line break of the literal counts).
+func c19RenderAfterRaw(decs []string) string {
+	render := func(lit string) (string, string) {
+		f, err := decorator.Parse("package p\n\nconst script = " + lit + "\n\nvar after = 1\n")
+		if err != nil {
+			return "", "harness: " + err.Error()
+		}
+		d := &f.Decls[1].(*dst.GenDecl).Decs.Start
+		d.Replace(decs...)
+		var buf bytes.Buffer
+		if err := decorator.Fprint(&buf, f); err != nil {
+			return "", "print failed: " + err.Error()
+		}
+		out := buf.String()
+		i := strings.Index(out, "MARK`")
+		if i < 0 {
+			return "", "harness: literal not found in " + out
+		}
+		return out[i:], ""
+	}
+	plain, msg := render("`MARK`")
+	if msg != "" {
+		return msg
+	}
+	for _, lit := range []string{"`one \\\ntwo MARK`", "`one \\\ntwo \\\nthree \\\nMARK`", "`one\ntwo\\\n\\\nMARK`"} {
+		got, msg := render(lit)
+		if msg != "" {
+			return msg
+		}
+		if got != plain {
+			return fmt.Sprintf("GenDecl.Start behind the raw string %q: All() = %q is rendered as %q, behind a one-line literal as %q", lit, decs, got, plain)
+		}
+	}
+	return ""
+}
+
 func c19Render(decs []string) string {
+	if msg := c19RenderAfterRaw(decs); msg != "" {
+		return msg
+	}
 	for _, t := range c19Targets {
 		f, err := decorator.Parse(c19Src)
 		if err != nil {
